@@ -81,7 +81,8 @@ class Ctx:
     # -- verdict --------------------------------------------------------------
     def finish(self):
         for d in self.scratch_dirs:
-            shutil.rmtree(d, ignore_errors=True)
+            if not os.environ.get("VERIF_KEEP_SCRATCH"):      # debugging aid: keep the streams of this run
+                shutil.rmtree(d, ignore_errors=True)
         lines = []
         nviol = 0
         seen_known = set()
@@ -545,6 +546,31 @@ def c03_verbatim(ctx):
             if o.get("out") != want:
                 ctx.violation("library API: a '+' token does not reach the output verbatim", {"input": {"patches": [patch], "src": src}, "want": want, "got": o.get("out")})
 
+def c03_once(ctx):
+    """the replacement is the '+' pattern instantiated with the site's bindings - once: a '+' side that is again an instance
+    of the '-' side must not be applied to its own output, however the file is named on the command line"""
+    patch = "@@\nvar x expression\n@@\n-foo(x)\n+foo(wrap(x))\n"
+    a = "package a\n\nfunc f() {\n\tfoo(1)\n\tfoo(g(2, \"two\"))\n}\n"
+    b = "package a\n\nfunc h() {\n\tfoo(3)\n}\n"
+    want_a = a.replace("foo(1)", "foo(wrap(1))").replace("foo(g(2, \"two\"))", "foo(wrap(g(2, \"two\")))")
+    want_b = b.replace("foo(3)", "foo(wrap(3))")
+    for args in (["a.go"], ["a.go", "b.go", "a.go"], [".", "a.go"], ["./...", "a.go"], ["a.go", "a.go"], ["b.go", "a.go", "./a.go", "b.go"],
+                 ["a.go", ".", "b.go"]):
+        root = ctx.scratch("once")
+        cl.write_tree(root, {"a.go": a, "b.go": b, "p.patch": patch})
+        code, out, err = cl.gopatch(ctx.gopatch, root, ["-p", "p.patch"] + args)
+        got_a, got_b = open(os.path.join(root, "a.go")).read(), open(os.path.join(root, "b.go")).read()
+        ctx.evaluations += 1
+        ctx.nontrivial.add("once:" + " ".join(args))
+        ctx.count("applied_once_table")
+        exp_b = want_b if any(x != "a.go" and x != "./a.go" for x in args) else b
+        if code != 0 or got_a != want_a or got_b != exp_b:
+            ctx.violation(f"gopatch -p p.patch {' '.join(args)}: the rewritten file is not the '+' pattern instantiated once per site "
+                          f"(exit {code}; a.go {got_a[got_a.find('foo'):][:60]!r})",
+                          {"input": {"patches": [patch], "files": {"a.go": a, "b.go": b}, "args": args}, "want": {"a.go": want_a, "b.go": exp_b},
+                           "got": {"a.go": got_a, "b.go": got_b}, "reproduce": "gopatch -p p.patch " + " ".join(args)})
+        shutil.rmtree(root, ignore_errors=True)
+
 @prop("C03")
 def c03(ctx):
     engine_family(ctx, "c03", {"status", "content"})
@@ -552,6 +578,9 @@ def c03(ctx):
                  "inside literals, '+'/'-' starting a line of a raw string, every spelling of a literal): the expected file is written "
                  "by hand, independent of the implementation's own parse of the patch.")
     c03_verbatim(ctx)
+    ctx.rule += (" Plus a table of command lines that reach the same file more than once with a patch whose output is again an instance of "
+                 "its '-' side: every site is rewritten exactly once.")
+    c03_once(ctx)
 
 @prop("C04")
 def c04(ctx):
@@ -3125,7 +3154,7 @@ def c17(ctx):
         if impl["trace"] == model["trace"]:
             touched[inp["id"]] = model.get("touched", [])
     c17_intervals_tie(ctx, jobs, touched)
-    c17_astdiff_tie(ctx, jobs)
+    c17_astdiff_tie(ctx, jobs, ctx.extra.pop("_untouched_extents", {}))
     d = ctx.scratch("cc")
     pth = os.path.join(d, "in.jsonl")
     meta = {}
@@ -3280,7 +3309,7 @@ def union_of(ivs):
             out.append([a, b])
     return out
 
-def c17_astdiff_tie(ctx, jobs):
+def c17_astdiff_tie(ctx, jobs, untouched=None):
     """internal/astdiff + internal/diff against their Lean model (AstDiff.lean): for every change that applies, the
     snapshot before it and the snapshot Snapshot.Diff returns are dumped (harness/astdiff, injected into the package by
     -overlay); the model diffs the same two values. Compared: the positions covered by the regions reported as changed,
@@ -3316,6 +3345,23 @@ def c17_astdiff_tie(ctx, jobs):
         snap = sx_field(sb_[2:], "snap") or ["?"]
         if sx_field(sb_[2:], "modeltrouble"):
             ctx.count("astdiff_model_trouble")
+        # the theorems about lists of nodes (untouched_neighbours_left_alone) have a hypothesis on the old snapshot:
+        # evaluated here on the declarations of every real snapshot
+        sf = sx_field(sb_[2:], "sepfail")
+        if sf is not None:
+            ctx.count("astdiff_separation_holds" if sf[0] == "0" else "astdiff_separation_fails")
+        # a declaration in which the engine model rewrote nothing must be paired with itself by the list alignment
+        cid0 = sa[1].rsplit(".", 1)[0]
+        for x in (sx_field(sb_[2:], "nonid") or []):
+            lo, hi = int(x[0]), int(x[1])
+            for a, b_ in (untouched or {}).get(cid0, []):
+                if lo < b_ and a < hi and lo < hi:
+                    patches, src = byid.get(cid0, ([""], ""))
+                    ctx.violation(f"the declaration at [{a}, {b_}), in which nothing was rewritten, is not paired with itself when the old and the "
+                                  f"new list of declarations are aligned (step {sa[1]}): it is reported as changed or deleted, its comments are at the "
+                                  "mercy of the comment filter",
+                                  {"input": {"patches": patches, "src": src}, "declaration": [a, b_], "not_identical": [lo, hi],
+                                   "reproduce": "gopatch -p p0.patch --print-only a.go"})
         if union_of(ia) != union_of(ib) or snap[0] != "ok" or sa[1] != sb_[1]:
             bad += 1
             if bad <= 3:
@@ -3340,6 +3386,7 @@ def c17_intervals_tie(ctx, jobs, touched):
         return
     # append the extents of the untouched declarations (engine model) to every case
     lines = []
+    untouched_extents = ctx.extra.setdefault("_untouched_extents", {})
     for l in open(os.path.join(d, "intervals.cases")).read().splitlines():
         sx = parse_sx(l)
         cid = sx[1]
@@ -3347,7 +3394,8 @@ def c17_intervals_tie(ctx, jobs, touched):
         nonimp = [(a, b) for a, b, imp in decls if not imp]
         unt = ""
         if cid in touched:
-            unt = " (untouched" + "".join(f" ({a} {b})" for j, (a, b) in enumerate(nonimp) if j not in touched[cid]) + ")"
+            untouched_extents[cid] = [(a, b) for j, (a, b) in enumerate(nonimp) if j not in touched[cid]]
+            unt = " (untouched" + "".join(f" ({a} {b})" for a, b in untouched_extents[cid]) + ")"
         lines.append(l[:-1] + unt + ")")
     m = subprocess.run([ctx.driver], input="\n".join(lines) + "\n", stdout=subprocess.PIPE, stderr=subprocess.PIPE, text=True, timeout=1800)
     impl = open(os.path.join(d, "intervals.impl")).read().splitlines()
